@@ -17,11 +17,54 @@ CHECKS = [
      "note": SWEEP_NOTE},
 ]
 
+DERIV_NOTE = SWEEP_NOTE + (" Reference derivative: difference quotient of a 640-bit evaluator (h = 2^-200); tolerance 4 x "
+              "interval-AD conditioning width + 2^-35 (S + |d|); ill-conditioned triples are counted and skipped.")
+F3_NOTE = " F3 (unsound even-root-of-even-power rewrite, pinned by the test suite) is a listed known finding, attributed by counterfactual."
+
+CHECKS += [
+    {"id": "C03", "engine": "SWEEP",
+     "technique": "bounded-exhaustive exploration of terms x variables x points through the forward-mode routes against a difference-quotient reference",
+     "design_ref": "DESIGN.md 3 C03, 2.3",
+     "text": "Every enumerated tree, every variable (occurring or not, by object and by name), every domain grid point: late Partial.at and late Derivative.at (Point and number) on never-used objects must equal the definition of the partial derivative (difference quotient of an independent 640-bit evaluator) within a conditioning-derived tolerance, be exactly 0 for non-occurring variables and exact on the polynomial fragment.",
+     "note": DERIV_NOTE},
+    {"id": "C04", "engine": "SWEEP",
+     "technique": "bounded-exhaustive exploration of terms (trees and DAGs) x points through the reverse-mode routes against a difference-quotient reference",
+     "design_ref": "DESIGN.md 3 C04",
+     "text": "Same product as C03 through LocatedDifferential(e,p) and Differential(e).at(p), in tree mode and in DAG mode (equal sub-terms are one shared object), with every ordered tuple of 19 factor kinds as n-ary arguments so that zero factors, repeated variables and shared sub-expressions occur in every position.",
+     "note": DERIV_NOTE},
+    {"id": "C05", "engine": "SWEEP",
+     "technique": "bounded-exhaustive exploration of symbolic-derivative routes; results evaluated on the grid, compared as rational functions, and differentiated again",
+     "design_ref": "DESIGN.md 3 C05",
+     "text": "For every tree, variable and symbolic route (forward: Partial/Derivative early and late; reverse: early Differential components) the returned expression is reified and must mention only the original's variables, be well-formed, be defined and equal to the reference partial at every grid point of the original's domain, equal the exact derivative as a rational function (all points at once) on the rational fragment, and its own late partials must match reference second-order partials.",
+     "note": DERIV_NOTE + F3_NOTE},
+    {"id": "C06", "engine": "SWEEP",
+     "technique": "bounded-exhaustive differential exploration: all 27 differentiation routes x early/late x before/after as_expression compared with each other",
+     "design_ref": "DESIGN.md 3 C06",
+     "text": "For every tree, variable and grid point (inside and outside the domain) all numeric routes must all raise DomainError or agree within the conditioning tolerance; early and late as_expression() of Partial/Derivative must be ==, print and hash identically; the documented object equalities must hold; early Differential components must equal the forward form as rational functions.",
+     "note": DERIV_NOTE + F3_NOTE + " Structural equality is demanded for Partial/Derivative; early Differential components are produced by the reverse-mode symbolic route and are compared semantically (DESIGN.md C06)."},
+    {"id": "C07", "engine": "SWEEP",
+     "technique": "bounded-exhaustive exploration of numeric derivative routes at decided domain/non-domain points against the reference domain predicate",
+     "design_ref": "DESIGN.md 3 C07",
+     "text": "For every tree, variable, decided grid point and numeric derivative route (early and late) the outcome kind must be DomainError iff the reference finds the original undefined there; skeleton terms put undefined sub-terms where rules can skip them (exponent of base one, next to zero factors, zero numerators, variable-free sub-trees).",
+     "note": DERIV_NOTE + F3_NOTE},
+    {"id": "C14", "engine": "SWEEP+ARGS",
+     "technique": "exhaustive enumeration of supplied-coordinate subsets x routes per term, plus an exhaustive finite menu of variable names",
+     "design_ref": "DESIGN.md 3 C14",
+     "text": "For every enumerated tree: every subset of its variables supplied x extra coordinate x differentiation variable (occurring / extra / absent) x all routes; complete points never raise CoordinateMissing, incomplete points never yield a number, bare numbers and Derivative are accepted iff <= 1 variable. A menu of legal, illegal and foreign names is pushed through Variable and 13 coordinate uses.",
+     "note": "Trusted base: the name predicate (non-empty, word characters) restated in smv/coords.py. Coordinate value 2 everywhere; DomainError outcomes are admissible."},
+    {"id": "C17", "engine": "SWEEP",
+     "technique": "bounded-exhaustive exploration of every API route at inside/outside/boundary/incomplete points with an admissible-outcome oracle",
+     "design_ref": "DESIGN.md 3 C17",
+     "text": "Every execution of the evaluation, numeric-derivative, as_expression and early-construction routes over all enumerated trees and grid points (including ambiguous boundary points and points lacking coordinates) must end in a finite real, a well-formed expression, DomainError or CoordinateMissing.",
+     "note": SWEEP_NOTE + " Range clause: cases with sub-term values outside 1e+-60 are skipped for derivative / symbolic routes."},
+]
+
+DONE = {c["id"] for c in CHECKS}
 _PENDING = "check under construction in this session; not claimed until its machinery is committed"
-NOT_APPLICABLE = [{"property_id": f"C{n:02d}", "reason": _PENDING} for n in range(3, 19)]
+NOT_APPLICABLE = [{"property_id": f"C{n:02d}", "reason": _PENDING} for n in range(1, 19) if f"C{n:02d}" not in DONE]
 
 ENGINES = [
-    {"name": "SWEEP", "path": "smv/sweep.py", "serves_properties": ["C01", "C02"],
+    {"name": "SWEEP", "path": "smv/sweep.py, smv/deriv.py, smv/coords.py", "serves_properties": ["C01", "C02", "C03", "C04", "C05", "C06", "C07", "C14", "C17"],
      "kind_free_text": "bounded-exhaustive enumeration of expression trees x grid points x API routes on the real implementation, each execution compared with the reference semantics (smv/refsem.py)"},
 ]
 
